@@ -29,10 +29,10 @@ man = {
     "setup_cmd": "./check --setup",
     "hooks": {
         "guard": "go build -overlay (file generated at check time by /verif/harness/cmd/genoverlay from /repo's working tree); no hook commits in /repo, no build tag needed",
-        "enable": "build/genoverlay -repo /repo -out build/overlay && go build -overlay build/overlay/overlay.json ./cmd/corr  (ipfs stub, add-only export shims zz_verif_export*.go, virtual-clock rewritten copies)",
+        "enable": "build/genoverlay -repo /repo -out build/overlay && go build -overlay build/overlay/overlay.json ./cmd/corr  (ipfs stub, add-only export shims zz_verif_export*.go, rewritten copies of 5 source files: time.Now/Since/Sleep/Until -> virtual clock, and one inserted call of blockchain.VerifGenesisHook in generateGenesis; nothing of this exists on disk in /repo)",
         "baseline_off_cmd": "cd /repo && GOFLAGS=-mod=mod GOPROXY=off GOSUMDB=off go test -mod=mod -json -vet=off -count=1 -timeout 25m ./...",
         "source_commits": [],
-        "add_only": True,
+        "add_only": False,
     },
     "engines": [{
         "name": "lean4-model+correspondence", "path": "/verif/check",
